@@ -63,8 +63,9 @@ Theorem C19_cancel_immediate :
     sc_enabled sc = true -> sc_writable sc = true -> sc_expr sc = false ->
     List.length (sd_vals (sc_seq sc)) = List.length (sd_delays (sc_seq sc)) ->
     cancelling (sc_cmd sc) -> sc_at sc <= sc_horizon sc ->
-    exists a0 l1 a a' l2,
-      sim true fuel sc = MP OOk a0 :: l1 ++ [MC (sc_at sc) a; MD (sc_at sc) OOk a'] ++ l2 /\
+    exists a0 l1 a td a' l2,
+      sim true fuel sc = MP OOk a0 :: l1 ++ [MC (sc_at sc) a; MD td OOk a'] ++ l2 /\
+      sc_at sc <= td <= sc_at sc + dpos (sc_dlat sc) /\
       (forall m, In m l1 -> before_cmd 0 (sc_at sc) (sc_pos sc) m) /\
       (forall m, In m l2 -> after_cmd m).
 Proof. exact cancel_immediate. Qed.
@@ -102,24 +103,64 @@ Example C19_schedule_example :
 Proof. vm_compute. reflexivity. Qed.
 
 Example C19_scenario_example :
-  sim true 50 (Scenario true true false (SeqDef [1; 2; 3] [100; 200; 300] 2) CNone 0 0 2000) =
+  sim true 50 (Scenario true true false (SeqDef [1; 2; 3] [100; 200; 300] 2) CNone 0 0 2000 0) =
     [MP OOk true; MSub 0 0 1; MSub 0 100 2; MSub 0 300 3; MSub 0 600 1; MSub 0 700 2; MSub 0 900 3; MFin 0 900;
      ME 2000 false].
 Proof. vm_compute. reflexivity. Qed.
 
 (* replacement exactly at the re-arm instant, after the task step that created the new task: accepted, new sequence plays *)
 Example C19_rearm_tie_example :
-  sim true 50 (Scenario true true false (SeqDef [1; 2] [100; 200] 0) (CSeq (SeqDef [101; 102] [10; 20] 1)) 300 1 1000) =
+  sim true 50 (Scenario true true false (SeqDef [1; 2] [100; 200] 0) (CSeq (SeqDef [101; 102] [10; 20] 1)) 300 1 1000 0) =
     [MP OOk true; MSub 0 0 1; MSub 0 100 2; MC 300 true; MD 300 OOk true; MSub 1 300 101; MSub 1 310 102; MFin 1 310;
      ME 1000 false].
 Proof. vm_compute. reflexivity. Qed.
 
 (* exact tie with a firing, task first (pos = 1): the value of that instant precedes the command *)
 Example C19_fire_first_tie_example :
-  sim true 50 (Scenario true true false (SeqDef [1; 2] [100; 200] 0) CDisable 100 1 400) =
+  sim true 50 (Scenario true true false (SeqDef [1; 2] [100; 200] 0) CDisable 100 1 400 0) =
     [MP OOk true; MSub 0 0 1; MSub 0 100 2; MC 100 true; MD 100 OOk false; ME 400 false].
 Proof. vm_compute. reflexivity. Qed.
 
 Example C19_refused_example :
-  sim true 50 (Scenario false true false (SeqDef [1; 2] [100; 200] 1) CNone 0 0 400) = [MP ODisabled false; ME 400 false].
+  sim true 50 (Scenario false true false (SeqDef [1; 2] [100; 200] 1) CNone 0 0 400 0) = [MP ODisabled false; ME 400 false].
+Proof. vm_compute. reflexivity. Qed.
+
+(* two commands (new sequence / disable) started in the same loop iteration, anywhere: once both have returned, everything
+   submitted up to the horizon belongs to one sequence generation g — the port never plays two sequences and no sequence is
+   left playing unreferenced (code with fixes/C19-concurrent-cancel.diff; the unfixed code: History/C19Old.v) *)
+Theorem C19_concurrent_single_survivor :
+  forall fuel sc c2,
+    exists pre l2 a g,
+      sim2 fuel sc c2 = pre ++ map M1 l2 ++ [M1 (ME (sc_horizon sc) a)] /\
+      (exists t o b, last pre (MD2 0 OOk false) = MD2 t o b \/ last pre (MD2 0 OOk false) = M1 (MD t o b)) /\
+      (forall m, In m l2 -> before_cmd g (sc_horizon sc + 1) 0 m).
+Proof. exact pair_single_survivor. Qed.
+Print Assumptions C19_concurrent_single_survivor.
+
+(* two replacement requests while [1,2]/[30,30]/endless is playing: the second is served first, submits its first value,
+   is then cancelled by the first request when that one resumes; only [101,102] plays on *)
+Example C19_concurrent_requests_example :
+  map enc2 (sim2 60 (Scenario true true false (SeqDef [1; 2] [30; 30] 0) (CSeq (SeqDef [101; 102] [40; 40] 0)) 45 0 200 0)
+                 (CSeq (SeqDef [201; 202] [50; 50] 0))) =
+    [(0, 0, 0, true); (1, 0, 1, true); (1, 30, 2, true); (3, 45, 0, true); (6, 45, 0, true); (1, 45, 201, true);
+     (4, 45, 0, true); (1, 45, 101, true); (1, 85, 102, true); (1, 125, 101, true); (1, 165, 102, true); (5, 200, 0, true)].
+Proof. vm_compute. reflexivity. Qed.
+
+(* disable concurrent with a request: nothing plays afterwards, whichever comes first *)
+Example C19_concurrent_disable_example :
+  map enc2 (sim2 60 (Scenario true true false (SeqDef [1; 2] [30; 30] 0) CDisable 45 0 200 0)
+                 (CSeq (SeqDef [201; 202] [50; 50] 0))) =
+    [(0, 0, 0, true); (1, 0, 1, true); (1, 30, 2, true); (3, 45, 0, true); (6, 45, 0, true); (1, 45, 201, true);
+     (4, 45, 0, false); (5, 200, 0, false)]
+  /\
+  map enc2 (sim2 60 (Scenario true true false (SeqDef [1; 2] [30; 30] 0) (CSeq (SeqDef [101; 102] [40; 40] 0)) 45 0 200 0)
+                 CDisable) =
+    [(0, 0, 0, true); (1, 0, 1, true); (1, 30, 2, true); (3, 45, 0, true); (6, 45, 0, false); (4, 45, 0, false);
+     (5, 200, 0, false)].
+Proof. split; vm_compute; reflexivity. Qed.
+
+(* a slow handle_disable() hook: the sequence is cancelled before the hook runs; disable returns 30 ms later *)
+Example C19_slow_disable_example :
+  sim true 50 (Scenario true true false (SeqDef [1; 2] [10; 10] 0) CDisable 15 0 80 30) =
+    [MP OOk true; MSub 0 0 1; MSub 0 10 2; MC 15 true; MD 45 OOk false; ME 80 false].
 Proof. vm_compute. reflexivity. Qed.
